@@ -50,6 +50,8 @@ def gen_job(verif_seed, tier, index):
         if jobgen.add_pre_variant(job, g, "shorter"):
             job["cwd_decoy"] = job.pop("pre_spec")
             job.pop("pre_kind", None)
+    if job.get("coord_text") is None and "density" in job["opts"] and g.random() < 0.3:
+        jobgen.add_alias_other_masses(job, g)
     if (not job.get("pre_spec") and not job.get("cwd_decoy") and g.random() < 0.12
             and len(job["spec"]["moltypes"]) >= 2 and job.get("coord_text") is None):
         jobgen.add_cond_include(job, g)
